@@ -304,6 +304,7 @@ func main() {
 	bySolver := map[string]int{}
 	nBoundedOK := 0
 	nUnconfirmed := 0
+	var coverUndecided []string
 	boundedNotes := map[string]bool{}
 	var totalMs int64
 	var samples []map[string]interface{}
@@ -360,6 +361,13 @@ func main() {
 			if len(samples) < 4 && !o.Cover {
 				samples = append(samples, entry)
 			}
+			continue
+		}
+		if o.Cover && o.Status == "unknown" {
+			// reachability of the preconditions neither shown nor refuted within the limit: not
+			// a violation (a contradictory contract gives unsat), but reported
+			entry["status"] = "cover-undecided"
+			coverUndecided = append(coverUndecided, o.Fn)
 			continue
 		}
 		violations++
@@ -446,6 +454,7 @@ func main() {
 		"bounded":                  boundedList(cfg.Bounded, boundedNotes),
 		"bounded_obligations_passed_not_counted_as_proved": nBoundedOK,
 		"proved_by_one_solver_only": nUnconfirmed,
+		"cover_queries_undecided":  coverUndecided,
 		"explanation":              cfg.Explanation,
 		"obligation_list":          oblList,
 		"exhaustive":               false,
